@@ -24,20 +24,22 @@ MOD, CFG = 'ForEachTrace.tla', 'ForEachTrace.cfg'
 def run(ctx):
     thorough = ctx.tier == 'thorough'
     exe = lc.build(ctx)
-    ctx.check_model(lc.SPEC, 'MCForEach.tla', 'MC_fe_seq.cfg', WHAT, workers=4, timeout=1500,
-                    label='pool 0..3 x wait x maxThreads 0..4 x n 0..9 x iterator category, overlap-free schedules')
-    ctx.check_model(lc.SPEC, 'MCForEach.tla', 'MC_fe_inter_thorough.cfg' if thorough else 'MC_fe_inter.cfg', WHAT,
-                    workers=4, timeout=1500, label='all interleavings of the element applications')
-    lc.negative_control(ctx, 'MCForEach.tla', 'MC_fe_neg_zero.cfg',
-                        'original for_each_n: zero-thread pool, wait=false -> staticChunkSize(n, 0)', 'NoDivZero')
+    if not lc.SKIP_E1:   # (mutation runs of the dispenso code skip the code-independent model checking)
+        ctx.check_model(lc.SPEC, 'MCForEach.tla', 'MC_fe_seq.cfg', WHAT, workers=4, timeout=1500,
+                        label='pool 0..3 x wait x maxThreads 0..4 x n 0..9 x iterator category, overlap-free schedules')
+        ctx.check_model(lc.SPEC, 'MCForEach.tla', 'MC_fe_inter_thorough.cfg' if thorough else 'MC_fe_inter.cfg', WHAT,
+                        workers=4, timeout=1500, label='all interleavings of the element applications')
+        lc.negative_control(ctx, 'MCForEach.tla', 'MC_fe_neg_zero.cfg',
+                            'original for_each_n: zero-thread pool, wait=false -> staticChunkSize(n, 0)', 'NoDivZero')
     rng = random.Random(ctx.seed + 15)
     scens = lc.FE_REGRESSION + [lc.fe_scenario(rng) for _ in range(150 if thorough else 40)]
     tr, done, _ = lc.run_controlled(ctx, exe, scens, 8 if thorough else 3, ctx.seed, WHAT, MOD, CFG,
-                                    'controlled executions of for_each_n')
+                                    'controlled executions of for_each_n', validate=False)
     ctx.sample({'scenarios': scens[:12]})
     ctx.sample_trace(tr, 10, skip=14)
     big = ['fe:N=0,n=9,wait=0,cat=1', 'fe:N=0,n=9,wait=1,cat=2'] + [lc.fe_scenario(rng, big=True) for _ in range(100 if thorough else 24)]
     trf, donef, _ = lc.run_free(ctx, exe, big, 5 if thorough else 2, ctx.seed, WHAT, MOD, CFG,
-                                'free-running for_each_n')
+                                'free-running for_each_n', validate=False)
+    lc.validate_all(ctx, [(tr, done), (trf, donef)], WHAT, MOD, CFG, 'controlled + free-running executions of for_each_n')
     ctx.cov['evaluations'] = done + donef
     ctx.assumptions += lc.ASSUME
